@@ -602,7 +602,9 @@ class Function(ClassOrFunc):
                 else:
                     yield from scan(nested_children)
 
-        return scan(self.children)
+        # Only the body belongs to the function: defaults and annotations are
+        # evaluated in the enclosing scope.
+        return scan(self.children[-1:])
 
     def iter_return_stmts(self):
         """
